@@ -122,6 +122,8 @@ fn emit_sdata(em: &mut Emit, d: &SData, tag: &str) {
     }
 }
 
+const PATH: &str = "user.address.city";
+
 pub fn run(em: &mut Emit, thorough: bool, seed: u64) {
     let mut rng = Rng::new(seed ^ 0xC17);
     // every scalar constructor at its boundaries
@@ -173,6 +175,12 @@ pub fn run(em: &mut Emit, thorough: bool, seed: u64) {
         SData::Map(vec![(SData::Some(Box::new(SData::Tuple(vec![SData::I64(1)]))), SData::I64(1))], true, true),
         SData::Map(vec![(SData::Duration(chrono::Duration::seconds(1)), SData::I64(1))], true, true),
         SData::Map(vec![(SData::Timestamp(chrono::DateTime::parse_from_rfc3339("2000-01-01T00:00:00+01:00").unwrap()), SData::I64(1))], true, false),
+        // field and variant names that are slices of one static text (same address, different lengths)
+        SData::Struct("S", vec![(&PATH[..4], SData::I64(1)), (&PATH[..12], SData::I64(2)), (PATH, SData::I64(3))]),
+        SData::Struct("S", vec![(PATH, SData::I64(1)), (&PATH[..4], SData::I64(2))]),
+        SData::StructVariant("E", 0, &PATH[..4], vec![(&PATH[..12], SData::U64(9)), (&PATH[..4], SData::U64(8))]),
+        SData::Seq(vec![SData::Struct("A", vec![(&PATH[5..12], SData::I64(1))]), SData::Struct("B", vec![(&PATH[5..], SData::I64(2))]),
+                        SData::UnitVariant("E", 0, &PATH[..4]), SData::NewtypeVariant("E", 1, PATH, Box::new(SData::I64(3)))], true),
         // an unsupported key after supported ones, and nested below supported data
         SData::Map(vec![(SData::Str("a".into()), SData::I64(1)), (SData::Tuple(vec![SData::I64(1)]), SData::I64(2)), (SData::Str("b".into()), SData::I64(3))], true, true),
         SData::Seq(vec![SData::I64(1), SData::Map(vec![(SData::StructVariant("E", 0, "S", vec![]), SData::Unit)], true, true)], true),
@@ -272,6 +280,40 @@ pub fn run(em: &mut Emit, thorough: bool, seed: u64) {
                     em.case("(echo (bool true))", &law, "nt=1;kind=law-marker", &disp);
                 }
             }
+        }
+    }
+    // The lengths a Serialize implementation announces (sequences, tuples, tuple structs and
+    // variants, maps, struct variants) are hints and need not be true: the conversion is the same
+    // whatever is announced - never a panic or an abort from trusting the hint for an allocation.
+    {
+        let mut data: Vec<SData> = fixed.iter().filter(|d| matches!(d, SData::Seq(..) | SData::Tuple(_) | SData::TupleStruct(..) | SData::TupleVariant(..)
+            | SData::Map(..) | SData::StructVariant(..) | SData::Struct(..) | SData::Some(_))).take(60).cloned().collect();
+        for _ in 0..60 {
+            data.push(rand_sdata(&mut rng, 3));
+        }
+        for d in data {
+            let disp = format!("{:?}", d);
+            let d1 = d.clone();
+            let law = guarded(move || {
+                // maps are compared as sets of entries (two conversions hash differently)
+                let sx_ser = |r: &Result<Value, cel_interpreter::SerializationError>| match r {
+                    Ok(v) => format!("(ok {})", sx_value(v)),
+                    Err(_) => "(err invalid)".to_string(),
+                };
+                let honest = sx_ser(&to_value(&d1));
+                for mode in 1..=5u8 {
+                    HINT_MODE.with(|m| m.set(mode));
+                    let r = std::panic::catch_unwind(std::panic::AssertUnwindSafe(|| sx_ser(&to_value(&d1))));
+                    HINT_MODE.with(|m| m.set(0));
+                    match r {
+                        Ok(got) if got == honest => {}
+                        Ok(got) => return format!("(law-violated hint-changes-result mode {} {} instead of {})", mode, got, honest),
+                        Err(_) => return format!("(law-violated hint-panics mode {})", mode),
+                    }
+                }
+                "(bool true)".to_string()
+            });
+            em.case("(echo (bool true))", &law, "nt=1;kind=law-hint", &disp);
         }
     }
     let n = if thorough { 300_000 } else { 12_000 };
